@@ -173,6 +173,9 @@ def trace_validate(binpath, machine, module, cfg, seed, n, timeout=900, rec_args
             r = subprocess.run(rcmd, capture_output=True, text=True, timeout=timeout, env=dict(os.environ, VH_INTENT=intent))
         except subprocess.TimeoutExpired:
             r = None
+        if r is None and os.path.exists(intent) and time.time() - os.path.getmtime(intent) < max(120, timeout / 5):
+            # the recorder was still making progress (the intent log moved recently): the budget was too small, not a hang
+            raise ToolError("recording %s did not finish within %ds (still progressing: enlarge the timeout or shrink the program)" % (j.name, timeout))
         if r is None or r.returncode != 0:
             last = open(intent).read() if os.path.exists(intent) else ""
             j.mismatches.append({"kind": "trace", "machine": machine, "cfg": cfg, "seed": seed, "n": n, "rec_args": list(rec_args),
